@@ -105,7 +105,8 @@ class RandomInputs(dict):
 
 def run_validation(job):
     """translator validation: run the harness concretely in the SSA interpreter on random inputs"""
-    harness, args, seed, n = job
+    harness, args, seed, n = job[:4]
+    job_opts = job[4] if len(job) > 4 else None
     rng = random.Random(seed)
     cases = []
     tries = 0
@@ -127,10 +128,27 @@ def run_validation(job):
         if ex.ended.get('assume-false'):
             continue
         # wrap inputs to their type ranges as the interpreter used them
-        cases.append({'harness': harness, 'args': args, 'inputs': {k: str(v) for k, v in inp.items()},
+        cases.append({'harness': harness, 'args': args, 'inputs': {k: ('true' if v is True else 'false' if v is False else str(v)) for k, v in inp.items()},
                       'observed': list(ex.observed), 'failures': list(ex.concrete_failures),
                       'panic': bool([k for k in ex.ended if k.startswith('panic')])})
-    return {'harness': harness, 'args': args, 'error': None, 'cases': cases}
+    # shadow evaluation: re-run the *symbolic* exploration while evaluating every constructed term under one of the
+    # concrete inputs (on the paths that input takes) and compare with direct concrete arithmetic and with the
+    # term's interval: catches unsound simplifications / intervals in the encoder itself
+    shadow = []
+    if cases and job_opts is not None and os.environ.get('VERIF_SHADOW'):
+        T.SHADOW_ERRORS.clear()
+        T.enable_shadow({k: (v == 'true') if v in ('true', 'false') else int(v) for k, v in cases[0]['inputs'].items()})
+        try:
+            o = dict(job_opts)
+            o.update({'stop_on_violation': False, 'timeout': 5})
+            ex = vx.make_executor(PROG, harness, o)
+            ex.run(harness, args, deadline=time.time() + 45)
+        except Exception:  # noqa
+            pass
+        finally:
+            T.SHADOW = None
+        shadow = [repr(e)[:400] for e in T.SHADOW_ERRORS[:5]]
+    return {'harness': harness, 'args': args, 'error': None, 'cases': cases, 'shadow_errors': shadow}
 
 
 # ---------------------------------------------------------------- native replay
@@ -296,7 +314,7 @@ def _main(prop, tier, seed, nproc, spec, tmpdir, t_start):
             o.update(j[2])
         jobs.append((harness, list(args), o))
     # nproc workers; each obligation may run two solver processes, so use half the cores for workers
-    workers = max(1, min(len(jobs), nproc))
+    workers = max(1, min(len(jobs), spec.get('workers', nproc)))
     ctx = mp.get_context('fork')
     results = []
     with ctx.Pool(workers, initializer=_init_worker, initargs=(ssa,)) as pool:
@@ -340,7 +358,7 @@ def _main(prop, tier, seed, nproc, spec, tmpdir, t_start):
             k = seen_h.get(h, 0)
             if k < spec.get('validate_per_harness', 2):
                 seen_h[h] = k + 1
-                vjobs.append((h, a, seed * 1000 + len(vjobs), spec.get('validate_samples', 6)))
+                vjobs.append((h, a, seed * 1000 + len(vjobs), spec.get('validate_samples', 6), {k: v for k, v in o.items() if k in ('cuts',)}))
         vres = list(pool.imap_unordered(run_validation, vjobs, chunksize=1)) if spec.get('validate', True) else []
 
     all_results = results + lemma_results
@@ -369,6 +387,8 @@ def _main(prop, tier, seed, nproc, spec, tmpdir, t_start):
         if v['error']:
             errors.append('validation %s%s: %s' % (v['harness'], v['args'], v['error']))
         vcases.extend(v['cases'])
+        for se in v.get('shadow_errors') or []:
+            print('SHADOW (development self-check, guard-insensitive): %s%s: %s' % (v['harness'], v['args'], se))
     rcases = []
     for r, ob in sat_cases:
         rcases.append({'harness': r['harness'], 'args': r['args'], 'inputs': {k: str(v).lower() if isinstance(v, bool) else str(v) for k, v in (ob.get('inputs') or {}).items()}})
@@ -390,7 +410,36 @@ def _main(prop, tier, seed, nproc, spec, tmpdir, t_start):
             else:
                 mismatches.append({'case': {k: c[k] for k in ('harness', 'args', 'inputs')}, 'interp': {'observed': c['observed'], 'failures': c['failures'], 'panic': c['panic']}, 'native': o})
         rdir = os.path.join(ROOT, 'replays', prop)
-        for i, ((r, ob), c, o) in enumerate(zip(sat_cases, rcases, outs[len(vcases):])):
+        # A model that violates an intermediate obligation (e.g. the sticky flag handed to the rounding kernel) may
+        # give a correct end result for the rounding mode the solver happened to pick.  Before calling it a
+        # mismatch, replay the same inputs under every rounding mode / sign: any variant that fails natively is a
+        # genuine concrete counterexample.
+        rouns = outs[len(vcases):]
+        variants = []
+        for i, (c, o) in enumerate(zip(rcases, rouns)):
+            if bool(o.get('failures')) or bool(o.get('panic')):
+                continue
+            keys = [k for k in c['inputs'] if k in ('mode', 'drm')]
+            if not keys or len(variants) > 400:
+                continue
+            for m in range(6):
+                for flip in (False, True):
+                    inp = dict(c['inputs'])
+                    for k in keys:
+                        inp[k] = str(m)
+                    if flip:
+                        if 'neg' in inp:
+                            inp['neg'] = 'false' if inp['neg'] == 'true' else 'true'
+                        else:
+                            continue
+                    variants.append((i, {'harness': c['harness'], 'args': c['args'], 'inputs': inp}))
+        if variants:
+            vouts = native_run([v for _, v in variants], tmpdir) or []
+            for (i, v), o in zip(variants, vouts):
+                if (bool(o.get('failures')) or bool(o.get('panic'))) and not (rouns[i].get('failures') or rouns[i].get('panic')):
+                    rouns[i] = o
+                    rcases[i] = v
+        for i, ((r, ob), c, o) in enumerate(zip(sat_cases, rcases, rouns)):
             reproduced = bool(o.get('failures')) or bool(o.get('panic'))
             if not reproduced:
                 engine_mismatch.append({'harness': r['harness'], 'args': r['args'], 'msg': ob['msg'], 'inputs': c['inputs'], 'native': o})
